@@ -49,7 +49,7 @@ out = ["",
        "(nothing from `/verif`) and asked for changes that break the property, still compile, keep the 59-test",
        "suite green and need something specific to manifest. Round 1: two changes per property (38). Round 2",
        "(14 properties): the first round's changes as an avoid-list and a demand for state-dependent or",
-       "two-site changes (28). Rounds 3 (10 properties, 18 changes; one agent failed) and 4 (the other 9",
+       "two-site changes (28). Round 5 is described below. Rounds 3 (10 properties, 18 changes; one agent failed) and 4 (the other 9",
        "properties, 18 changes): additionally told, in general terms, what kind of tester they were up against",
        "(parameter sweeps, forged packets with every header/length/PEC variation, random histories,",
        "byte-for-byte comparison) and asked for changes such a tester could still miss.",
@@ -102,6 +102,27 @@ out = ["",
        "  the conversions are now observed by variant **name** as well as by value. C09-r3-2 turned out to have",
        "  been caught by luck (a random data byte) and is now covered by complete data-byte sweeps of the",
        "  fixed-length commands.",
+       "* Round 5 (6 agents, one per part of the crate, 18 changes) was fully adversarial: the agents were given",
+       "  all 19 properties, the list of the ~100 changes already detected, and a complete description of what",
+       "  the tester varies and compares, and were asked for changes it would still miss. Against the checks *as",
+       "  they stood* only 2 of 17 were caught (the 18th needs 2^32 calls and was not runnable at the time). This",
+       "  is the honest measure of what a differential tie cannot see by itself: behaviour that depends on the",
+       "  number of calls so far (16- and 32-bit counters that overflow: R5-1-1, R5-2-1, R5-3-3, R5-5-1, R5-4-3,",
+       "  R5-6-2), on relations between several fields (R5-1-3: the same bit wrong in bytes 4 and 8; R5-6-1:",
+       "  equal endpoint IDs with SOM and TO clear; R5-6-3: physical address = 2 × EID in a constructor; R5-4-1:",
+       "  adjacent EID ranges in a routing table; R5-4-2: a vendor body beginning with its own header; R5-2-3: a",
+       "  received IANA number equal to a configured one; R5-2-2: UUIDs differing only in their tail; R5-3-1: the",
+       "  output buffer already holding the same packet with a damaged last byte), and on sizes nobody tries",
+       "  (R5-1-2: inputs over 512 bytes; R5-3-2: an optional header of 250 bytes). Each of these dimensions now",
+       "  has a family: executor-only `repeat <n> <op>` (every answer must equal the first; 70 000 repetitions in",
+       "  the quick tier, 2·10^6 maximum-size encodes and 4.3·10^9 validator refusals in the thorough tier),",
+       "  `gen_relations`, `gen_own_config`, realistic routing tables, relational constructor arguments, own",
+       "  output damaged and reused as the buffer, headers up to 65 536 bytes, inputs up to 70 000 bytes. After",
+       "  that all 18 are caught (R5-4-3 and R5-6-2 only by the thorough tier). The lesson recorded here: the",
+       "  theorems quantify over everything, but they are about the model; against a change that adds state the",
+       "  model does not have, only the generators stand, and an adversary who knows them can always pick the",
+       "  next unvaried dimension — which is why the tie is reported as differential, generator-bounded, in",
+       "  every evidence file.",
        "* The Lean-side counterpart of these experiments is `Props/JudgeSound*.lean`: it proves that the judge",
        "  never says `fail` about the model. Proving it found three clauses where the judge was stricter than",
        "  the theorems on calls outside the documented argument shapes (routing entries that are not whole, a",
